@@ -54,6 +54,9 @@ type emPay struct {
 	problems  []string
 	events    []string // declVar/defVar order, etc.
 	emitted   map[string]bool
+	valEq     map[int]string   // token text known: epoch of the token -> the constant it equals
+	valNe     map[int][]string // epoch -> constants it is known to differ from
+	bindByte  string           // the option byte emitted for BIND on this path (constant, or "?")
 }
 
 func (p *emPay) Clone() Payload {
@@ -68,6 +71,14 @@ func (p *emPay) Clone() Payload {
 	for k := range p.emitted {
 		q.emitted[k] = true
 	}
+	q.valEq = map[int]string{}
+	for k, v := range p.valEq {
+		q.valEq[k] = v
+	}
+	q.valNe = map[int][]string{}
+	for k, v := range p.valNe {
+		q.valNe[k] = append([]string(nil), v...)
+	}
 	return &q
 }
 
@@ -80,7 +91,42 @@ func (p *emPay) key() string {
 	for _, s := range p.scopes {
 		sc = append(sc, s.String())
 	}
-	return fmt.Sprintf("%s|%s|%d|%v|%v|%v|%s%s|%d|%v|%v|%s", p.d, p.L, p.B, sc, js, p.dead, p.pendOp, p.pendShape, p.minSlack, p.trace, p.problems, p.prevTyp)
+	return fmt.Sprintf("%s|%s|%d|%v|%v|%v|%s%s|%d|%v|%v|%s|%s|%s", p.d, p.L, p.B, sc, js, p.dead, p.pendOp, p.pendShape, p.minSlack, p.trace, p.problems, p.prevTyp, p.words(), p.bindByte)
+}
+
+// words renders what is known about token texts on this path: "w1,w2" in token order (only equalities).
+func (p *emPay) words() string {
+	var eps []int
+	for ep := range p.valEq {
+		eps = append(eps, ep)
+	}
+	sort.Ints(eps)
+	var ws []string
+	for _, ep := range eps {
+		ws = append(ws, p.valEq[ep])
+	}
+	return strings.Join(ws, ",")
+}
+
+// assumeVal records text(epoch) == s (eq) or != s; false when that contradicts what is known.
+func (p *emPay) assumeVal(epoch int, s string, eq bool) bool {
+	if p.valEq == nil {
+		p.valEq, p.valNe = map[int]string{}, map[int][]string{}
+	}
+	if known, ok := p.valEq[epoch]; ok {
+		return (known == s) == eq
+	}
+	for _, n := range p.valNe[epoch] {
+		if n == s && eq {
+			return false
+		}
+	}
+	if eq {
+		p.valEq[epoch] = s
+	} else {
+		p.valNe[epoch] = append(p.valNe[epoch], s)
+	}
+	return true
 }
 
 // emitModel is the result of analysing the compiler.
@@ -116,6 +162,8 @@ type emitOutcome struct {
 	LastOp   string
 	Events   []string
 	Ret      Value
+	Words    string // token texts assumed on the path, in token order
+	BindByte string
 }
 
 type emitEntry struct {
@@ -253,7 +301,7 @@ func (m *emitModel) run(fn, tok, class string) {
 			base, baseL = linConst(0), linConst(0)
 		}
 		ent.Outcomes = append(ent.Outcomes, emitOutcome{D: p.d.sub(base), L: p.L.sub(baseL), B: p.B, Need: need, Trace: p.trace, Problems: p.problems,
-			Jumps: len(p.jumps), Scopes: len(p.scopes), Dead: p.dead, Pending: p.pendOp + ":" + p.pendShape, LastOp: p.lastOp, Events: p.events, Ret: r.v})
+			Jumps: len(p.jumps), Scopes: len(p.scopes), Dead: p.dead, Pending: p.pendOp + ":" + p.pendShape, LastOp: p.lastOp, Events: p.events, Ret: r.v, Words: p.words(), BindByte: p.bindByte})
 		for op := range p.emitted {
 			m.Emitted[op] = true
 		}
@@ -285,6 +333,8 @@ func (m *emitModel) hooks() Hooks {
 			return linV(p.L), true
 		case "<parser>.scope.depth":
 			return tagV("scopedepth", ""), true
+		case "<parser>.prev.val":
+			return tagV("prevval", p.epoch), true
 		}
 		// rule.prec / rule.prefix / rule.infix on a value obtained from getRule
 		if sel, ok := e.(*ast.SelectorExpr); ok {
@@ -324,6 +374,21 @@ func (m *emitModel) hooks() Hooks {
 		if !ok {
 			return true
 		}
+		// the text of a consumed token compared with a string constant
+		if be.Op == token.EQL || be.Op == token.NEQ {
+			for _, side := range [][2]ast.Expr{{be.X, be.Y}, {be.Y, be.X}} {
+				k, isK := c.strConst(side[1])
+				if !isK {
+					continue
+				}
+				for _, vs := range in.eval(st.clone(), side[0]) {
+					if vs.v.K == vTag && vs.v.Tag == "prevval" {
+						return pay(st).assumeVal(vs.v.Data.(int), k, (be.Op == token.EQL) == branch)
+					}
+					break
+				}
+			}
+		}
 		id, ok := stripParens(be.X).(*ast.Ident)
 		if !ok {
 			return true
@@ -352,6 +417,14 @@ func (m *emitModel) hooks() Hooks {
 		} else {
 			st.Env[obj] = tagV("nolocal", "-1")
 			pay(st).events = append(pay(st).events, "local:notfound")
+		}
+		return true
+	}
+	h.CaseMatch = func(in *Interp, st *State, tag Value, caseExpr ast.Expr, taken bool) bool {
+		if tag.K == vTag && tag.Tag == "prevval" {
+			if k, isK := c.strConst(caseExpr); isK {
+				return pay(st).assumeVal(tag.Data.(int), k, taken)
+			}
 		}
 		return true
 	}
@@ -502,6 +575,12 @@ func (m *emitModel) hooks() Hooks {
 			m.operand(p, call, "v", prov)
 			return one(st, unknownV()), true
 		case role == "emitByte":
+			if p.pendOp == "opBIND" {
+				p.bindByte = "?"
+				if len(args) == 1 && args[0].K == vConst {
+					p.bindByte = args[0].C.ExactString()
+				}
+			}
 			m.operand(p, call, "B", "byte")
 			return one(st, unknownV()), true
 		case role == "emitBytes":
